@@ -218,9 +218,6 @@ func marshalVisit(obj Object, v *visit) ([]byte, error) {
 var errCyclicJSON = errz.EvalErrorf("value error: a value that contains itself cannot be marshalled to JSON")
 
 func (ls *List) marshalVisit(v *visit) ([]byte, error) {
-	if ls.items == nil {
-		return []byte("null"), nil
-	}
 	if v.enter(ls) {
 		return nil, errCyclicJSON
 	}
@@ -242,9 +239,6 @@ func (ls *List) marshalVisit(v *visit) ([]byte, error) {
 }
 
 func (m *Map) marshalVisit(v *visit) ([]byte, error) {
-	if m.items == nil {
-		return []byte("null"), nil
-	}
 	if v.enter(m) {
 		return nil, errCyclicJSON
 	}
